@@ -157,6 +157,96 @@ def caller_dict_problems(material: RKey, params, rng, res, label) -> list:
     return out
 
 
+_EC_OID = {"P-256": "06082a8648ce3d030107", "P-384": "06052b81040022", "P-521": "06052b81040023", "secp256k1": "06052b8104000a"}
+
+
+def odd_pem_problems(material: RKey, rng, res, label) -> list:
+    """key files as other tools write them: `openssl ecparam -genkey` (an EC PARAMETERS block before the key), a certificate and
+    its private key in one file (either order), the traditional (PKCS#1 / SEC1) armour.  The key that comes out is the key in the file"""
+    import base64
+    import datetime
+    from cryptography import x509
+    from cryptography.x509.oid import NameOID
+    from cryptography.hazmat.primitives import hashes, serialization as ser
+    from joserfc.jwk import JWKRegistry
+    out = []
+    if material.kty == "oct" or material.priv is None:
+        return out
+    p8 = K.pem(material, True)
+    forms = []
+    if material.kty in ("RSA", "EC"):
+        trad = material.priv.private_bytes(ser.Encoding.PEM, ser.PrivateFormat.TraditionalOpenSSL, ser.NoEncryption())
+        forms.append(("traditional", trad))
+        if material.kty == "EC":
+            params = b"-----BEGIN EC PARAMETERS-----\n" + base64.b64encode(bytes.fromhex(_EC_OID[material.crv])) + b"\n-----END EC PARAMETERS-----\n"
+            forms.append(("ecparam+key", params + trad))
+    if material.crv not in ("X25519", "X448"):
+        name = x509.Name([x509.NameAttribute(NameOID.COMMON_NAME, "c11")])
+        algo = None if material.kty == "OKP" else hashes.SHA256()
+        cert = (x509.CertificateBuilder().subject_name(name).issuer_name(name).public_key(material.pub).serial_number(11)
+                .not_valid_before(datetime.datetime(2024, 1, 1)).not_valid_after(datetime.datetime(2034, 1, 1)).sign(material.priv, algo))
+        cpem = cert.public_bytes(ser.Encoding.PEM)
+        forms += [("cert+key", cpem + p8), ("key+cert", p8 + cpem)]
+    for name, blob in rng.sample(forms, min(2, len(forms))):
+        via = rng.pick(["class", "registry", "text"])
+        res.case(label, "odd-pem", name, via)
+        res.fired("odd-pem:" + name)
+        try:
+            with warnings.catch_warnings():
+                warnings.simplefilter("ignore")
+                if via == "class":
+                    key = S.jose_cls(material.kty).import_key(blob)
+                elif via == "registry":
+                    key = JWKRegistry.import_key(blob, material.kty)
+                else:
+                    key = S.jose_cls(material.kty).import_key(blob.decode("ascii"))
+                got = S.material_of(key)
+                private = key.is_private
+        except Exception as e:
+            out.append(("import:odd-pem:%s:refused" % name, "a %s file (%s) was refused: %s: %s" % (name, via, type(e).__name__, str(e)[:80])))
+            continue
+        if not private or not S.same_public(material, got) or not S.same_private(material, got):
+            out.append(("import:odd-pem:%s:other-key" % name, "a %s file (%s) came out as %s key with %s material" % (
+                name, via, "a private" if private else "a public-only", "the same public" if S.same_public(material, got) else "different")))
+    return out
+
+
+def split_contradiction_problems(material: RKey, rng, res, label) -> list:
+    """`use` and `key_ops` that contradict each other are refused wherever the two come from: both in the JWK, both in the
+    parameters, or one in each.  The refusal may come at import or (for key data that is not a JWK) at the first export,
+    but never does such a key hand out a JWK"""
+    from joserfc.jwk import JWKRegistry, KeySet
+    out = []
+    use, ops = rng.pick([("sig", ["encrypt"]), ("sig", ["sign", "wrapKey"]), ("enc", ["verify"]), ("enc", ["decrypt", "sign"]), ("sig", ["deriveBits"])])
+    cls = S.jose_cls(material.kty)
+    jwk = rk.to_jwk(material, True)
+    how = rng.pick(["use-in-jwk", "ops-in-jwk", "both-in-parameters", "both-in-jwk", "key-set-parameters", "bytes+parameters"])
+    try:
+        with warnings.catch_warnings():
+            warnings.simplefilter("ignore")
+            if how == "use-in-jwk":
+                key = cls.import_key(dict(jwk, use=use), {"key_ops": list(ops)})
+            elif how == "ops-in-jwk":
+                key = JWKRegistry.import_key(dict(jwk, key_ops=list(ops)), parameters={"use": use})
+            elif how == "both-in-parameters":
+                key = cls.import_key(dict(jwk), {"use": use, "key_ops": list(ops)})
+            elif how == "both-in-jwk":
+                key = cls.import_key(dict(jwk, use=use, key_ops=list(ops)))
+            elif how == "key-set-parameters":
+                key = KeySet.import_key_set({"keys": [dict(jwk, key_ops=list(ops), kid="k")]}, parameters={"use": use}).keys[0]
+            else:
+                key = cls.import_key(material.k if material.kty == "oct" else K.pem(material, True), {"use": use, "key_ops": list(ops)})
+            exported = key.as_dict()
+    except Exception:
+        res.case(label, "split-contradiction", how, "refused")
+        return out
+    res.case(label, "split-contradiction", how, "accepted")
+    res.fired("contradictory-use-key_ops-across-sources")
+    out.append(("import:contradictory-use-key_ops-accepted:%s" % how, "use=%r with key_ops=%r (%s) was imported and exported as %r" % (
+        use, ops, how, {k: exported.get(k) for k in ("use", "key_ops")})))
+    return out
+
+
 def material_in_parameters_problems(material: RKey, rng, res, label) -> list:
     """`parameters` are for kid / use / alg and the like.  When a caller (a template copied from another key, a merged config)
     passes key members there, the call either refuses or the key stays what its material says: never a key that computes with
@@ -313,6 +403,10 @@ def check_key(res, tr, label, material: RKey, jkey, params, viol, rng, thorough)
         viol(sig, what, "caller-dicts")
     for sig, what in material_in_parameters_problems(material, rng.sub("material-parameters"), res, label):
         viol(sig, what, "material-in-parameters")
+    for sig, what in split_contradiction_problems(material, rng.sub("split-contradiction"), res, label):
+        viol(sig, what, "split-contradiction")
+    for sig, what in odd_pem_problems(material, rng.sub("odd-pem"), res, label):
+        viol(sig, what, "odd-pem")
     # private export of a public-only key must be an error
     try:
         pub = S.reload(S.persist(jkey, "jwk-public"), "jwk-public", material.kty) if kind[0] != "oct" else None
@@ -391,7 +485,7 @@ def run(rng: Rng, tier: str, index: int) -> RunResult:
             continue
         if rare:
             res.probe("rare-key:leading-zero-" + rare)
-        repro_base = {"key": rk.to_jwk(material, True), "how": how, "params": params}
+        repro_base = {"key": rk.to_jwk(material, True), "how": how, "params": params, "check_seed": krng.sub("check").label}
         res.sample({"kind": list(kind), "provisioned": how, "params": params, "rare": rare})
 
         def viol(sig, what, form, _r=repro_base):
@@ -479,5 +573,5 @@ def replay(repro: dict):
 
     def viol(sig, what, form):
         out.append((sig, what))
-    check_key(res, tr, "replay", material, jkey, repro["params"], viol, Rng("replay"), False)
+    check_key(res, tr, "replay", material, jkey, repro["params"], viol, Rng(repro.get("check_seed", "replay")), False)
     return out
